@@ -26,7 +26,8 @@ func init() {
 			" R12 the text kept of a patch line is not a window into a buffered reader's buffer: the result of bufio.Scanner.Bytes / Reader.ReadSlice / ReadLine / Peek (and Bytes / Next of a bytes.Buffer that the same function rewinds) is only inspected, converted or copied — never stored in a field other than the reader's own current-line cache, a slice element, a map or a channel, nor returned to a caller that does so." +
 			" R13 both compilers of a change are given the declaration table compileMeta returned." +
 			" R15 the node kept as the pattern is reached from the parsed source through File.Decls, FuncDecl.Body, BlockStmt.List and ExprStmt.X only; R16 the tree handed to the snapshot and to the changes is the first result of parser.ParseFile in this call (both pipelines)." +
-			" R17 where the section splitter searches for the end of a line by index, the not-found edge sets the offset to len(content).",
+			" R17 where the section splitter searches for the end of a line by index, the not-found edge sets the offset to len(content)." +
+			" R18 the reflect.Value.Set in setValue is handed setValue's own parameter; R19 = C04-R3..R5.",
 		Trusted:     commonTrusted,
 		Assumptions: commonAssumptions,
 	})
@@ -70,6 +71,13 @@ func runC03(r *an.Run) {
 	// the code a metavariable stood for is taken from the file given, not from the output of an earlier call
 	treeIsParsedFromTheBytesGiven(r, "R16-the-tree-rewritten-is-parsed-from-the-bytes-given")
 	unterminatedLastLineIsALine(r, "R17-an-unterminated-last-line-is-a-line")
+	slotTakesTheValueGenerated(r, "R18-a-slot-takes-the-value-that-was-generated")
+	// the copy of what follows an elision is placed after the run the elision skipped: that run is recorded
+	// with its region also when it is empty
+	c04AnchoringAndConsumption(r)
+	relabel(r, "R3-anchoring-and-consumption", "R19-the-run-an-elision-skipped-is-recorded-with-its-region")
+	relabel(r, "R4-recorded-run-is-skipped-run", "R19-the-run-an-elision-skipped-is-recorded-with-its-region")
+	relabel(r, "R5-search-completeness", "R19-the-run-an-elision-skipped-is-recorded-with-its-region")
 }
 
 func c03Siblings(r *an.Run) {
